@@ -180,6 +180,25 @@ class Run(object):
                     if r != op[3] * 2 + 1:
                         self.fail('C36.1', 'callback invoked from a Python thread returned %r' % (r,))
                     self.out.probe('python_thread_callback')
+                elif name == 'gatedpair':
+                    # two brand-new threads, both past the callback entry before either holds the GIL
+                    self.pairs = getattr(self, 'pairs', 0) + 1
+                    wx, wy = -1000 - 2 * self.pairs, -1001 - 2 * self.pairs
+                    self.params[wx] = dict(yields=0, gc=op[5], raises=False, nested=op[6])
+                    self.params[wy] = dict(yields=0, gc=False, raises=False, nested=op[7])
+                    rx, _, ry, _ = drv.gated_pair(wx, wy, op[1], op[2], op[3], op[4], op[8])
+                    for w2, a, r in ((wx, op[1], rx), (wy, op[2], ry)):
+                        if r != a * 2 + 1:
+                            self.fail('C36.1', 'overlapping first callbacks of two new threads: one returned %r, '
+                                      'expected %r' % (r, a * 2 + 1))
+                        st = self.state.get(w2)
+                        if st is None or st['calls'] < 1:
+                            self.fail('C36.1', 'overlapping first callbacks of two new threads: a body did not run')
+                        else:
+                            st['exited'] = True
+                    self.out.fault('two_new_threads_enter_callbacks_before_either_holds_the_GIL')
+                    self.out.fault('foreign_thread_exit')
+                    self.sched.point('pair')
                 elif name == 'gc':
                     gc.collect()
                     self.out.fault('gc_event')
@@ -268,11 +287,15 @@ class C36(core.Check):
     def gen_script(self, rng, nops):
         ops = [['start']]
         for _ in range(nops):
-            n = rng.weighted([('start', 5), ('call', 14), ('wait', 3), ('exit', 5), ('pycall', 3), ('gc', 2), ('pt', 2)])
+            n = rng.weighted([('start', 5), ('call', 14), ('wait', 3), ('exit', 5), ('pycall', 3), ('gc', 2), ('pt', 2),
+                              ('gatedpair', 2)])
             if n == 'call':
                 ops.append(['call', rng.below(100), rng.weighted([(0, 4), (1, 3), (2, 2), (5, 1), (6, 1)]),
                             rng.weighted([(1, 6), (3, 3), (20, 1)]), rng.randint(0, 3),
                             rng.chance(0.12), rng.chance(0.1), rng.randint(1, 1000), rng.chance(0.4)])
+            elif n == 'gatedpair':
+                ops.append(['gatedpair', rng.randint(1, 1000), rng.randint(1, 1000), rng.below(2), rng.below(2),
+                            rng.chance(0.2), rng.chance(0.3), rng.chance(0.3), rng.below(2)])
             elif n in ('wait', 'exit'):
                 ops.append([n, rng.below(100)])
             elif n == 'pycall':
